@@ -17,6 +17,8 @@ ASSUMPTIONS = [
     "localized strings use %B/%A (translation yields full English names)",
 ]
 CHUNK = 1500
+# week-of-year + weekday formats (a complete date); rendered by the harness with its own week arithmetic
+WEEK_FORMATS = ["%Y %W %a", "%Y %U %w", "%A, week %W of %Y", "%a %U %Y %H:%M"]
 DATE_PARTS = ["%Y-%m-%d", "%d/%m/%Y", "%m/%d/%Y", "%d.%m.%y", "%d %B %Y", "%B %d, %Y", "%d %b %Y", "%A, %d %B %Y", "%a %d %b %Y",
               "%Y%m%d", "%y%m%d", "%Y-%j", "%B %Y", "%m/%Y", "%Y", "%d %B", "%b %d", "%B", "%b %y"]
 TIME_PARTS = ["", "%H:%M", "%H:%M:%S", "%I:%M %p", "%H:%M:%S.%f", "%I:%M:%S %p"]
@@ -41,6 +43,13 @@ def render(fmt, dt, names=None):
         "%f": "%06d" % dt.microsecond, "%I": "%02d" % (dt.hour % 12 or 12), "%p": "AM" if dt.hour < 12 else "PM",
         "%j": "%03d" % (cal.ordinal(dt.year, dt.month, dt.day) - cal.ordinal(dt.year, 1, 1) + 1),
     }
+    if "%W" in fmt or "%U" in fmt or "%w" in fmt:
+        doy = cal.ordinal(dt.year, dt.month, dt.day) - cal.ordinal(dt.year, 1, 1)          # 0-based day of the year
+        wd_mon0 = cal.weekday(dt.year, dt.month, dt.day)                                    # Monday = 0
+        # C89: week 1 starts on the first Monday (%W) / Sunday (%U) of the year, the days before it are week 0
+        rep["%W"] = "%02d" % ((doy + 7 - wd_mon0) // 7)
+        rep["%U"] = "%02d" % ((doy + 7 - (wd_mon0 + 1) % 7) // 7)
+        rep["%w"] = "%d" % ((wd_mon0 + 1) % 7)                                              # Sunday = 0
     out, i = "", 0
     while i < len(fmt):
         if fmt[i] == "%":
@@ -61,8 +70,9 @@ def expected(fmt, dt, pd, pm, now):
         y = 2000 + yy if yy <= 68 else 1900 + yy
     else:
         y = now.year
-    have_month = has("%m", "%B", "%b", "%j")
-    have_day = has("%d", "%j")
+    week = has("%W", "%U") and has("%a", "%A", "%w")
+    have_month = has("%m", "%B", "%b", "%j") or week
+    have_day = has("%d", "%j") or week
     m = dt.month if have_month else {"first": 1, "last": 12, "current": now.month}[pm]
     if have_day:
         d = dt.day
@@ -126,6 +136,8 @@ def spaces(tier, seed):
                                                                                  "%d %B %Y %H:%M:%S.%f", "%f %d %B %Y"],
                                             "d": [5], "us": [456789, 30000, 5], "pref": [1], "now": [0]},
                 note="strings that match only after translation, with %f away from its usual place (and another '.digits' group in the string)"),
+        Product("week-number-formats", {"wf": WEEK_FORMATS, "ord": range(cal.ordinal(2015, 1, 1), cal.ordinal(2025, 1, 1)), "pref": [0, 2], "now": [0, 3]},
+                note="every day 2015..2024 written as week of the year + weekday"),
         Product("yearless-every-day", {"yf": YEARLESS, "doy": range(1, 367), "ynow": range(len(NOW_YL)), "pref": [0, 2]},
                 note="the year comes from the (virtual) current year, leap or not; day-of-year formats included"),
         Listed("format-beats-heuristics", [{"s": s, "f": f, "exp": e} for s, f, e in [
@@ -172,6 +184,9 @@ def run_case(sub, c):
         dt = datetime(2013, m, c["d"], 10, 45, 13, c.get("us", 0))
         names = {"month": nm}
         langs = [lang]
+    elif sub == "week-number-formats":
+        fmt = c["wf"]
+        dt = datetime(*cal.from_ordinal(c["ord"]), 13, 14, 15)
     elif sub == "yearless-every-day":
         fmt = c["yf"]
         if c["doy"] > (366 if cal.is_leap(now.year) else 365):
